@@ -1,6 +1,6 @@
 SPECIFICATION Spec
 CONSTANTS
-  Alpha = {0, 97, 98, 200}
+  Alpha = {0, 1, 97, 98, 200}
   MaxLen = 3
   Kinds = {"text", "pair"}
 INVARIANTS Reflexive Antisymmetric Transitive TransitiveEq NullLeast Total PrefixIsLess EqualIffSameValue PairIgnoresValue EmitUniverse
